@@ -27,6 +27,9 @@ pub trait Project {
     /// Updates the text for a document.
     fn change_text_document(&mut self, file_id: &FileId, content: String);
 
+    /// Removes a document from the project (the editor closed it).
+    fn close_text_document(&mut self, _file_id: &FileId) {}
+
     /// Requests tokens for the file.
     fn tokenize(&self, file_id: &FileId) -> (Vec<Token>, Vec<Diagnostic>);
 
@@ -129,6 +132,10 @@ impl Project for FileBackedProject {
             "Change text document sources new length is {}",
             self.sources.len()
         );
+    }
+
+    fn close_text_document(&mut self, file_id: &FileId) {
+        self.sources.remove(file_id);
     }
 
     fn tokenize(&self, file_id: &FileId) -> (Vec<Token>, Vec<Diagnostic>) {
